@@ -2,6 +2,11 @@ package main
 
 // C04 through the command line: two commits on one branch, `wrgl diff main main^ --no-gui`, and
 // the DIFF_*.csv it writes (one line per added / removed row, two per modified row).
+//
+// The two commits may sit on top of an earlier history of the branch (Earlier): commits of the same
+// files under another primary key - none, or the key extended by a column - or under the same one,
+// made before the two that are diffed. What the diff of the last two commits says is a function of
+// their two tables; nothing the branch held before may show in it.
 
 import (
 	"os"
@@ -17,9 +22,18 @@ type c04CLIInput struct {
 	S2  *TableSpec `json:"s2"` // the older commit
 	New [][]string `json:"new"` // hex rows
 	Old [][]string `json:"old"`
+	// Earlier: commits made on the branch before the two, oldest first
+	Earlier []c04Earlier `json:"earlier,omitempty"`
 }
 
-func c04CLIRun(s1, s2 *TableSpec) Res {
+// c04Earlier is one earlier commit of the branch: the rows of s1 or of s2, committed with the key PK
+// (column names; empty = no primary key).
+type c04Earlier struct {
+	Of string   `json:"of"` // "s1" | "s2"
+	PK []string `json:"pk"`
+}
+
+func c04CLIRun(s1, s2 *TableSpec, earlier []c04Earlier) Res {
 	root, err := os.MkdirTemp(privateTmp(), "dcli-")
 	if err != nil {
 		return Err("tmpdir")
@@ -41,6 +55,21 @@ func c04CLIRun(s1, s2 *TableSpec) Res {
 		for _, a := range [][]string{{"config", "set", "user.email", "u@example.com"}, {"config", "set", "user.name", "U"}} {
 			if out, err := cli(dir, a...); err != nil {
 				return Res{"res": "err", "kind": "setup:" + out + err.Error()}
+			}
+		}
+		for i, e := range earlier {
+			s := s2
+			if e.Of == "s1" {
+				s = s1
+			}
+			fp := filepath.Join(root, "t.csv")
+			os.WriteFile(fp, s.CSV(0), 0644)
+			args := []string{"commit", "main", fp, "e" + itoa(i), "-n", itoa(1 + i%3)}
+			if len(e.PK) > 0 {
+				args = append(args, "-p", strings.Join(e.PK, ","))
+			}
+			if out, err := cli(dir, args...); err != nil {
+				return Res{"res": "err", "kind": "earlier-commit:" + out + ":" + err.Error()}
 			}
 		}
 		for i, s := range []*TableSpec{s2, s1} {
@@ -101,8 +130,35 @@ func splitCSVLenient(b []byte) [][]string {
 	return append([][]string{hdr}, rows...)
 }
 
+// c04EarlierShapes: histories the branch may have had before the two diffed commits. The key column
+// k leads and is unique, so the rows sort the same way under no key, under (k) and under (k, v).
+func c04EarlierShape(k int, pk []string, other string) ([]c04Earlier, string) {
+	ext := append(append([]string{}, pk...), other)
+	switch k % 6 {
+	case 0: // the older file was first committed without a primary key
+		return []c04Earlier{{Of: "s2", PK: []string{}}}, "no-key"
+	case 1: // ... and then once more with the key
+		return []c04Earlier{{Of: "s2", PK: []string{}}, {Of: "s2", PK: pk}}, "no-key,keyed"
+	case 2: // the older file was first committed with a longer key
+		return []c04Earlier{{Of: "s2", PK: ext}}, "longer-key"
+	case 3: // the newer file had been on the branch before, without a key and with it
+		return []c04Earlier{{Of: "s1", PK: []string{}}, {Of: "s1", PK: pk}}, "newer:no-key,keyed"
+	case 4: // both files before, under other keys
+		return []c04Earlier{{Of: "s1", PK: ext}, {Of: "s2", PK: []string{}}}, "newer:longer-key,older:no-key"
+	default: // the same two commits had been made before
+		return []c04Earlier{{Of: "s2", PK: pk}, {Of: "s1", PK: pk}}, "same-commits-before"
+	}
+}
+
 func runC04CLI(ctx *Ctx) {
 	s1, s2 := windowShapes(ctx.R, 0)
 	in := &c04CLIInput{S1: s1, S2: s2, New: hxRows(s1.Rows), Old: hxRows(s2.Rows)}
-	ctx.Emit("diff-cli", in, c04CLIRun(s1, s2), true, "cli", "mode=window-shapes")
+	tags := []string{"cli", "mode=window-shapes"}
+	if (ctx.Idx/12)%2 == 1 {
+		// every other command-line case: the branch has a history before the two commits
+		var label string
+		in.Earlier, label = c04EarlierShape(ctx.Idx/24, s1.PK, s1.Columns[len(s1.Columns)-1])
+		tags = append(tags, "earlier="+label)
+	}
+	ctx.Emit("diff-cli", in, c04CLIRun(s1, s2, in.Earlier), true, tags...)
 }
